@@ -152,10 +152,10 @@ def throughAuth (st : St) (chain : List Gin.H) (r : Req) : Outcome ⊕ Option To
 
 /-- `:param` segments replaced by `x` -/
 def concretePath (p : String) : String :=
-  "/".intercalate ((p.splitOn "/").map fun s => if s.startsWith ":" ∨ s.startsWith "*" then "x" else s)
+  "/".intercalate ((Gin.segs p).map fun s => if Gin.startsWithChar ':' s ∨ Gin.startsWithChar '*' s then "x" else s)
 
 def altSlash (p : String) : String :=
-  if p.endsWith "/" then Gin.dropTrailingSlash p else p ++ "/"
+  if Gin.endsWithSlash p then Gin.dropTrailingSlash p else p ++ "/"
 
 /-- the probes of a sweep: every registered route (sorted by `METHOD:path`), its
 trailing-slash neighbour, the same path under another method; then unknown paths -/
